@@ -191,7 +191,20 @@ theorem cnt_wakeOne_le (q : Quirks) (s : State) (k' : Key) :
   · next w rest hw =>
     simp only []
     split
-    · exact ⟨by rw [cntL_notify]; exact Nat.le_refl _, cntR_notify_le w.key k' { s with wakeQ := rest }⟩
+    · split
+      · exact ⟨by rw [cntL_notify]; exact Nat.le_refl _, cntR_notify_le w.key k' { s with wakeQ := rest }⟩
+      · exact ⟨Nat.le_refl _, Nat.le_refl _⟩
+    split
+    · have hd : cntL { (setBlocked { s with wakeQ := rest } w.conn none) with
+            registry := (setBlocked { s with wakeQ := rest } w.conn none).registry.filter fun x => x.2.conn != w.conn } k' ≤ cntL s k' ∧
+          cntR { (setBlocked { s with wakeQ := rest } w.conn none) with
+            registry := (setBlocked { s with wakeQ := rest } w.conn none).registry.filter fun x => x.2.conn != w.conn } k' ≤ cntR s k' := by
+        refine ⟨?_, ?_⟩
+        · unfold cntL; simp only [setBlocked_store]; exact Nat.le_refl _
+        · unfold cntR; simp only [setBlocked_registry]; exact countP_filter_le _ _ _
+      split
+      · exact ⟨by rw [cntL_notify]; exact hd.1, Nat.le_trans (cntR_notify_le w.key k' _) hd.2⟩
+      · exact hd
     split
     · exact ⟨Nat.le_refl _, Nat.le_refl _⟩
     · next e st' hpe =>
@@ -221,7 +234,9 @@ theorem serveRound (q : Quirks) (huas : q.unregisterAllOnServe = true) (k : Key)
   obtain ⟨h1, _, h3⟩ := InvG_notify_sl k hI hpos (by rw [hq]; intro w hw; cases hw)
   have hcalm' : Calm (notify k s) := by unfold Calm; rw [notify_conns]; exact hcalm
   refine ⟨InvG_wakeOne q huas _ h1 hcalm', ?_, Calm_wakeOne q _ hcalm', ?_, ?_⟩
-  · rw [wakeOne_wakeQ q _ (fun w rest hw => h1.target_ok hw)]
+  · rw [wakeOne_wakeQ q _ (fun w rest hw => h1.target_ok hw) (fun w rest hw => by
+      obtain ⟨b, hb, _⟩ := h1.wakeOk w (by rw [hw]; simp)
+      exact hcalm' w.conn (by rw [hb]; simp))]
     rw [hq] at h3
     simp only [List.length_nil, Nat.zero_add] at h3
     cases hwq : (notify k s).wakeQ with
